@@ -16,7 +16,7 @@ NOPANIC = re.compile(
     r"|core::result::Result::<T, E>::(ok|err|is_ok|is_err|map|map_err|and_then|or_else|unwrap_or|unwrap_or_else|unwrap_or_default)"
     r"|alloc::string::String::(as_str|len|is_empty|new)|<alloc::string::String as core::ops::Deref>::deref|<alloc::string::String as core::convert::AsRef<str>>::as_ref"
     r"|<alloc::string::String as core::borrow::Borrow<str>>::borrow"
-    r"|core::str::traits::<impl core::cmp::PartialEq for str>::(eq|ne)|core::str::<impl str>::(len|is_empty|as_bytes)"
+    r"|core::str::traits::<impl core::cmp::PartialEq for str>::(eq|ne)|core::str::<impl str>::(len|is_empty|as_bytes)|core::str::(converts::)?from_utf8"
     r"|<alloc::string::String as core::cmp::PartialEq<&str>>::eq|<alloc::string::String as core::cmp::PartialEq<str>>::eq|<alloc::string::String as core::cmp::PartialEq>::eq"
     r"|core::num::<impl usize>::(overflowing_|checked_|saturating_|wrapping_)\w+"
     r"|alloc::vec::Vec::<T, A>::(len|is_empty|capacity|as_slice)|alloc::vec::Vec::<T>::new|core::slice::<impl \[T\]>::(len|is_empty)"
@@ -175,9 +175,26 @@ def r_serde(f):
                 if not okk:
                     R.fail(fb_.ident, "t2:key:%s" % ",".join(src_tys), "%s reads the key as %s: a borrowed &str can only be produced by deserialisers that own the whole input and only for keys without escapes - from_reader / from_value (and escaped keys) fail" % (fb_.ident, src_tys), fb_.where())
             else:
-                R.inconc(fb_.ident, "t2: how %s obtains the key text is not modelled (visitor-based identifier)" % ename)
+                # visitor-based: deserialize_identifier / _str / _string (FieldVisitor): serde forwards borrowed and owned text to
+                # visit_str by default, so a visitor that implements visit_str accepts every transport; one that only
+                # implements visit_borrowed_str (or visit_string) does not
+                vts = []
+                for _, _, fn2 in fb_.calls():
+                    if fn2 and fn2["name"] in ("deserialize_identifier", "deserialize_str", "deserialize_string", "deserialize_any"):
+                        vts.append(norm_ty((fn2.get("args") or ["?"])[-1]).split("::")[-1].split("<")[0])
+                meths = sorted({b2.name for b2 in f.fn_bodies if b2.impl_trait and b2.trait_head == "Visitor" and b2.self_head in vts and b2.name.startswith("visit_")})
+                if vts and meths:
+                    okk = "visit_str" in meths
+                    R.inst(fb_.ident, "t2 the key enum's visitor %s implements %s" % (vts, meths), okk)
+                    if not okk:
+                        R.fail(fb_.ident, "t2:key:visitor:%s" % ",".join(meths), "%s parses keys with a visitor that implements only %s: transient or owned key text (from_reader, from_value, escaped keys) is rejected - visit_str is the method every transport can reach" % (fb_.ident, meths), fb_.where())
+                else:
+                    R.inconc(fb_.ident, "t2: how %s obtains the key text is not modelled (visitor-based identifier)" % ename)
             lit2var = {}
-            for bi, t, fn in fb_.calls():
+            # the classification may sit in the impl itself or in a visitor it hands to the deserialiser (visit_str / visit_string)
+            class_bodies = [fb_] + [b2 for b2 in f.fn_bodies if b2 is not fb_ and b2.file == fb_.file and b2.kind != "Closure" and b2.locals and re.search(r"Result<[\w:]*%s\b" % re.escape(ename), norm_ty(b2.locals[0]))]
+            for fb_, bi, t, fn in [(cbody, bi, t, fn) for cbody in class_bodies for bi, t, fn in cbody.calls()]:
+                fd_ = Dfx(fb_)
                 if fn and fn["name"] == "eq" and ("str" in fn["path"] or "str" in " ".join(fn.get("args", []))):
                     lit = None
                     for a in t["args"]:
@@ -322,11 +339,47 @@ def r_serde(f):
     # constructor call: arguments are the parsed locals in parameter order
     ctor = [(bi, t, fn) for bi, t, fn in vm.calls() if fn and f.crate_fn_for_call(fn) is not None and norm_ty(vm.locals[t["dest"]["local"]] if not t["dest"]["proj"] else "").startswith("toodee::TooDee<")]
     ctor = [(bi, t, fn) for bi, t, fn in vm.calls() if fn and fn["name"] in ("from_vec", "from_box", "init", "new") and f.crate_fn_for_call(fn) is not None and f.crate_fn_for_call(fn).self_head == "TooDee"]
+    host, names_vm = vm, names
+    if not ctor:
+        # the validation tail may live in a crate helper that receives the parsed values
+        for bi_, t_, fn_ in vm.calls():
+            hb_ = f.crate_fn_for_call(fn_) if fn_ else None
+            if hb_ is None or hb_.kind == "Closure" or hb_.id == vm.id:
+                continue
+            hc_ = [(bi2, t2, fn2) for bi2, t2, fn2 in hb_.calls() if fn2 and fn2["name"] in ("from_vec", "from_box", "init", "new") and f.crate_fn_for_call(fn2) is not None and f.crate_fn_for_call(fn2).self_head == "TooDee"]
+            if not hc_:
+                continue
+            # the helper must receive each parsed value in the parameter of the same name
+            hpn = hb_.param_names()
+            got_ = []
+            for a in t_["args"]:
+                e = strip(d.expr(a)); nm = None
+                for x in walk(e):
+                    if x[0] in ("var", "param") and x[1] in names:
+                        nm = names[x[1]]; break
+                got_.append(nm)
+            want_ = [hpn.get(i + 1) for i in range(len(t_["args"]))]
+            n += 1
+            okh = all((w == a) or (w not in want) for w, a in zip(want_, got_))
+            R.inst(vm.ident, "t1 helper %s%s receives the parsed values %s" % (hb_.ident, tuple(want_), got_), okh)
+            if not okh:
+                R.fail(vm.ident, "t1:ctor-args:%s" % ",".join(str(a) for a in got_), "visit_map passes %s to %s%s: dimensions exchanged or wrong slot" % (got_, hb_.ident, tuple(want_)), vm.where(t_["span"]))
+            host, ctor = hb_, hc_
+            names = {}
+            for v in hb_.d.get("debug", []):
+                val = v.get("v")
+                if isinstance(val, dict) and "local" in val and not val.get("proj"):
+                    names.setdefault(val["local"], v["name"])
+            d = Dfx(hb_)
+            break
     if not ctor:
         R.inconc(vm.ident, "no call of a TooDee constructor found in visit_map (built differently?)")
         return R, n
+    # the last constructor call with non-constant dimensions is the one that carries the parsed values
+    ctor = sorted(ctor, key=lambda c_: sum(1 for a in c_[1]["args"] if a["k"] == "const"))
     bi, t, fn = ctor[0]
     cb = f.crate_fn_for_call(fn)
+    vm_orig, vm = vm, host
     pn = cb.param_names()
     argn = []
     for a in t["args"]:
@@ -348,7 +401,7 @@ def r_serde(f):
 
     # ---- t4: panic-free reader
     # (i) no panicking callee in the reader's own code
-    reader_bodies = [vm] + vm.closures()
+    reader_bodies = [vm_orig] + vm_orig.closures()
     for b in f.fn_bodies:
         if b in reader_bodies:
             continue
